@@ -44,6 +44,7 @@ func init() {
 			{ID: "C10-R20", Title: "the VM installs its own context values on every path (shared with C12-R17)", Floor: 3, Run: theVMInstallsItsOwnContextValuesOnEveryPath},
 			{ID: "C10-R21", Title: "error constructors make new objects", Floor: 3, Run: errorConstructorsMakeNewObjects},
 			{ID: "C10-R22", Title: "arguments are not cut to a fixed size", Floor: 1, Run: argumentsAreNotCutToAFixedSize},
+			{ID: "C10-R23", Title: "watcher and halt flag are per run: a VM that stops does not halt another (shared with C06-R4)", Floor: 3, Run: func(c *core.Ctx) { watcherRules(c, "C10") }},
 		},
 	})
 }
